@@ -45,8 +45,20 @@ def _run_group(args):
                 'error': '%s: %s\n%s' % (type(e).__name__, e, traceback.format_exc())}
 
 
+def _spool_path(job):
+    d = os.path.join(VERIF, '.work')
+    os.makedirs(d, exist_ok=True)
+    return os.path.join(d, 'spool_%d_%s.jsonl' % (os.getppid(), ''.join(ch if ch.isalnum() else '_' for ch in job[1])))
+
+
 def _child(job, q):
     try:
+        sp = _spool_path(job)
+        try:
+            os.unlink(sp)
+        except OSError:
+            pass
+        os.environ['VERIF_SPOOL'] = sp
         q.put(_run_group(job))
     except BaseException as e:  # noqa
         q.put({'group': job[1], 'results': [], 'seconds': 0, 'sources': {}, 'error': 'result could not be returned: %r' % (e,)})
@@ -75,6 +87,10 @@ def _run_all(jobs, njobs, hard_limit):
                 pass
             if got is not None:
                 outs[g] = got
+                try:
+                    os.unlink(os.path.join(VERIF, '.work', 'spool_%d_%s.jsonl' % (os.getpid(), ''.join(ch if ch.isalnum() else '_' for ch in g))))
+                except OSError:
+                    pass
                 pr.join(10)
                 if pr.is_alive():
                     pr.kill()
@@ -88,8 +104,15 @@ def _run_all(jobs, njobs, hard_limit):
             elif time.time() - st > hard_limit:
                 pr.kill()
                 pr.join(5)
+                partial = []
+                sp = os.path.join(VERIF, '.work', 'spool_%d_%s.jsonl' % (os.getpid(), ''.join(ch if ch.isalnum() else '_' for ch in g)))
+                try:
+                    with open(sp) as f:
+                        partial = [json.loads(l) for l in f if l.strip()]
+                except Exception:  # noqa
+                    partial = []
                 outs[g] = {'group': g, 'seconds': time.time() - st, 'sources': {}, 'error': None,
-                           'results': [_ob.res('-', 'obligation group %s' % g, 'inconclusive', [],
+                           'results': partial + [_ob.res('-', 'obligation group %s' % g, 'inconclusive', [],
                                                'group stopped at its hard wall limit of %d s (soft budget exceeded, solver or exploration did not return); '
                                                'its obligations are undecided' % hard_limit)]}
                 del running[g]
